@@ -791,6 +791,9 @@ fn corpus() -> Vec<(Store, Vec<String>, Vec<String>)> {
         (st(&[("refs/remotes/a/b", "3"), ("refs/remotes/a/HEAD", "@refs/remotes/a/b")], &[], &[]), s(&[]), s(&["a", "a/HEAD"])),
         // a packed, direct refs/remotes/<name>/HEAD
         (st(&[], &[("refs/remotes/a/HEAD", 1), ("refs/remotes/a/b", 2)], &[]), s(&[]), s(&["a"])),
+        // KNOWN FINDING (Props.C18.refs_prefix_deviation_witness): a name starting with `refs/` that does not
+        // exist itself is expanded by git with its other rules (here refs/tags/refs/heads/x), not by gitoxide
+        (st(&[("refs/tags/refs/heads/x", "1")], &[], &[]), s(&[]), s(&["refs/heads/x", "refs/tags/refs/heads/x", "tags/refs/heads/x"])),
         // all-uppercase branch and tag names
         (st(&[("refs/heads/A", "0")], &[("refs/tags/RELEASE", 1)], &[]), s(&[]), s(&["A", "RELEASE", "heads/A", "tags/RELEASE"])),
         // stale packed value shadowed by loose; empty directories
